@@ -104,7 +104,20 @@ func runC27(r *Run) {
 		uEvs2, uErr2, p2 := decodeVia("UniversalDecoder.Decode", doc, func(d []byte, rc events.DataEventReceiver) error { return uni.Decode(bytes.NewReader(d), rc) }, cfg)
 		uVal, uvErr, p3 := unmarshalVia("UnmarshalFromCEDocument", doc, func(d []byte) (interface{}, error) { return ce.UnmarshalFromCEDocument(d, nil, cfg) })
 		uVal2, uvErr2, p4 := unmarshalVia("UnmarshalCE", doc, func(d []byte) (interface{}, error) { return ce.UnmarshalCE(bytes.NewReader(d), nil, cfg) })
-		for _, p := range []string{p1, p2, p3, p4} {
+		// the same through a reader whose first Read delivers nothing (allowed by io.Reader): the format is
+		// still the document's (seeded change C27B3 sniffed it with one Read and ignored the count)
+		slow := func(d []byte) *patternReader {
+			return &patternReader{data: d, sizes: []int{0, 1 + n%3, 0, 40}, failAt: -1}
+		}
+		sEvs2, sErr2, p5 := decodeVia("UniversalDecoder.Decode(empty first read)", doc, func(d []byte, rc events.DataEventReceiver) error { return uni.Decode(slow(d), rc) }, cfg)
+		sVal2, svErr2, p6 := unmarshalVia("UnmarshalCE(empty first read)", doc, func(d []byte) (interface{}, error) { return ce.UnmarshalCE(slow(d), nil, cfg) })
+		if sEvs2 != uEvs2 || sErr2 != uErr2 {
+			r.out.Finding("C27", "detection-depends-on-delivery:UniversalDecoder.Decode", fmt.Sprintf("a reader whose first Read returns (0, nil) gives %s %s, a plain reader %s %s", sErr2, trunc(sEvs2, 200), uErr2, trunc(uEvs2, 200)), text)
+		}
+		if sVal2 != uVal2 || svErr2 != uvErr2 {
+			r.out.Finding("C27", "detection-depends-on-delivery:UnmarshalCE", fmt.Sprintf("a reader whose first Read returns (0, nil) gives %s %s, a plain reader %s %s", svErr2, trunc(sVal2, 200), uvErr2, trunc(uVal2, 200)), text)
+		}
+		for _, p := range []string{p1, p2, p3, p4, p5, p6} {
 			if p != "" {
 				r.out.Finding("C27", "panic:"+strings.SplitN(p, ":", 2)[0], p, text)
 			}
